@@ -1,11 +1,23 @@
 //! Contains transformation form the IR to the interpreter Bytecode.
 
+#[cfg(not(hpbf_verif))]
 use std::{
     cmp::Reverse,
     collections::{BTreeSet, BinaryHeap, HashMap, HashSet},
     fmt::{self, Debug},
     mem,
 };
+
+#[cfg(hpbf_verif)]
+use std::{
+    cmp::Reverse,
+    collections::{BTreeSet, BinaryHeap},
+    fmt::{self, Debug},
+    mem,
+};
+
+#[cfg(hpbf_verif)]
+use crate::verif::{HashMap, HashSet};
 
 use crate::{
     ir::{self, Block, Expr},
